@@ -146,9 +146,10 @@ int main()
                         for (std::size_t i = 0; i < geo.size(); ++i)
                         {
                             if (kind != "TB") { double vg = viol(geo[i]); if (!(vg <= tol * 1.000001)) { ++gbad; worst = std::max(worst, vg); } }
-                            if (i > 0) { double d = css->distance(geo[i - 1], geo[i]); worststep = std::max(worststep, d / (lambda * delta)); if (d > lambda * delta * (1 + 1e-9)) ++gstep; }
+                            // step bound and end distance are stated for the projection- and atlas-based spaces; the lazy tangent-bundle geodesic is exempt
+                            if (i > 0 && kind != "TB") { double d = css->distance(geo[i - 1], geo[i]); worststep = std::max(worststep, d / (lambda * delta)); if (d > lambda * delta * (1 + 1e-9)) ++gstep; }
                         }
-                        double de = css->distance(geo.back(), b); worstend = std::max(worstend, de / delta); if (de > delta * (1 + 1e-9)) ++gend;
+                        if (kind != "TB") { double de = css->distance(geo.back(), b); worstend = std::max(worstend, de / delta); if (de > delta * (1 + 1e-9)) ++gend; }
                     }
                     for (auto *s : geo) css->freeState(s);
                 }
